@@ -37,7 +37,10 @@ OpPool == {
   MkOp("replace", <<O, N0>>, <<>>, IntV(7)), MkOp("remove", <<O, N1>>, <<>>, Null),
   \* an index equal to the array length, a move into the source's own child, a member whose name starts with '#'
   MkOp("add", <<R, <<50>>>>, <<>>, IntV(9)), MkOp("move", <<R, N0, N0>>, <<R, N0>>, Null), MkOp("copy", <<R, <<49>>>>, <<R, N0>>, Null),
-  MkOp("addne", <<O, <<35, 49>>>>, <<>>, IntV(8)), MkOp("add", <<X, <<120, 32, 121>>>>, <<>>, IntV(5)) }
+  MkOp("addne", <<O, <<35, 49>>>>, <<>>, IntV(8)), MkOp("add", <<X, <<120, 32, 121>>>>, <<>>, IntV(5)),
+  \* member names made of the pointer escape characters: "~1" (printed "/~01") and "/" (printed "/~1")
+  MkOp("add", <<<<126, 49>>>>, <<>>, IntV(9)), MkOp("replace", <<<<126, 49>>>>, <<>>, VArr), MkOp("add", <<<<47>>>>, <<>>, IntV(8)),
+  MkOp("copy", <<<<126, 48, 49>>>>, <<<<126, 49>>>>, Null) }
 
 Docs == { Obj(<<R>>, <<Arr(<<IntV(1), IntV(2)>>)>>),
           Obj(<<X, R>>, <<Obj(<<A>>, <<Arr(<<>>)>>), Arr(<<Obj(<<A>>, <<Arr(<<>>)>>)>>)>>),
